@@ -165,6 +165,12 @@ def shaped_games():
                            [0, 0, 3, 1, 5, 0, 0], [5]))
         out.append(mk_game([P1, P2, PR, PR, PR, PR, PR], [s0, [("x", 3), ("y", 4)], [(0.5, 6), (0.5, 5)], [(0.5, 6), (0.5, 5)], [(0.9, 6), (0.1, 5)], [(1, 5)], [(1, 6)]],
                            [0, 0, 0, 10, 1, 0, 0], [6]))
+    # a value that arrives LATE: a state gets part of its value at once and the larger part only sweeps later, through a longer route over
+    # higher-numbered states; a player-owned predecessor must rank it by the final value (sweep orders / "settled state" shortcuts)
+    out.append(mk_game([P1, P1, PR, PR, PR, PR, PR, PR, PR], [[("s", 1), ("t", 2)], [("short", 3), ("long", 4)], [(0.7, 7), (0.3, 8)], [(0.5, 7), (0.5, 8)], [(1, 5)], [(1, 6)],
+                                                                  [(0.9, 7), (0.1, 8)], [(1, 7)], [(1, 8)]], [0, 1, 1, 1, 1, 1, 1, 0, 0], [7]))
+    out.append(mk_game([P2, PR, PR, PR, PR, PR, PR], [[("v", 1), ("w", 2)], [(0.5, 5), (0.5, 3)], [(0.7, 5), (0.3, 6)], [(1, 4)], [(1, 5)], [(1, 5)], [(1, 6)]], [0, 1, 1, 1, 1, 0, 0], [5]))
+    out.append(mk_game([P1, PR, PR, PR, PR, PR, PR], [[("v", 1), ("w", 2)], [(0.5, 5), (0.5, 3)], [(0.7, 5), (0.3, 6)], [(1, 4)], [(1, 5)], [(1, 5)], [(1, 6)]], [0, 1, 1, 1, 1, 0, 0], [5]))
     # a long shot: positive but tiny reachability values next to exact zeros
     for eps in (1e-7, 1e-9):
         out.append(mk_game([PR, PR, PR, PR, PR], [[(0.25, 1), (0.5, 2), (0.25, 4)], [(eps, 4), (1 - eps, 3)], [(0.5, 4), (0.5, 3)], [(1, 3)], [(1, 4)]], [1, 1, 1, 0, 0], [4]))
